@@ -89,6 +89,8 @@ def explore(chk):
     N = 500 if chk.tier == "quick" else 15000
     for i in range(N):
         progs.append(sccgen.gen_popon(rng, rich=(i % 4 != 0), max_len=24))
+    for i in range(N // 10):
+        progs.append(sccgen.italic_rows_program(rng, doubled=bool(i % 2)))
     chk.exhaustive = True
     b = core.Batch()
     ops = [b.add("scc.read", "%d/1" % p["offset"], core.enc(p["text"])) for p in progs]
